@@ -35,6 +35,19 @@ pub fn check_frame(addr: u16, ty: u8, data: &[u8], borrowed: bool, rep: &mut Rep
         });
     }
     let r = catch(|| {
+        // every eighth frame is handled right after the thread has been through the documented errors (data that is too
+        // long, owned and borrowed; a line that does not decode): an error leaves nothing behind for the next call
+        let troubled = (usize::from(addr) ^ usize::from(ty) ^ data.len()) % 8 == 1;
+        let mut early: Vec<(&'static str, String, String)> = vec![];
+        if troubled {
+            let junk: Vec<u8> = (0..256 + data.len()).map(|i| (i as u8) ^ 0x5C).collect();
+            if Data::try_new(&junk[..]).is_ok() || Data::try_new(junk).is_ok() {
+                early.push(("overlong_data_accepted", "Err".into(), "Ok".into()));
+            }
+            if Frame::from_bytes(b":0100FF04").is_ok() {
+                early.push(("truncated_line_accepted", "Err".into(), "Ok".into()));
+            }
+        }
         let orig = Frame::new(Address(addr), MsgType(ty), Data::try_new(data.to_vec()).expect("<=255"));
         let probe = |f: Frame<'_>| -> (RefMsg, bool, String) {
             let msg = Message::from(f);
@@ -58,9 +71,17 @@ pub fn check_frame(addr: u16, ty: u8, data: &[u8], borrowed: bool, rep: &mut Rep
             v.extend_from_slice(data);
             probe(Frame::new(Address(addr), MsgType(ty), Data::try_new(v).expect("<=255")))
         };
-        let mut bad: Vec<(&'static str, String, String)> = vec![];
+        let mut bad: Vec<(&'static str, String, String)> = early;
         if got != want {
             bad.push(("classification", want.show(), got.show()));
+        }
+        // copies of the frame and of its message are the frame and the message (on a sample: cloning is cheap, frames are many)
+        if troubled || data.len() <= 2 {
+            let copy = orig.clone();
+            let via_copy = Frame::from(Message::from(copy.clone()).clone());
+            if copy != orig || copy.data().as_ref() != data || via_copy != orig || via_copy.data().as_ref() != data {
+                bad.push(("copy_differs", format!("{:?}", orig), format!("copy {:?}, through a copied message {:?}", copy, via_copy)));
+            }
         }
         if !same {
             bad.push(("not_identity", format!("{:?}", orig), back));
